@@ -271,9 +271,11 @@ func (r *wRun) run(c c17WCase) {
 	}
 	// a call that reports the injected sink failure puts the object into its error state: from then on, until Reset,
 	// calls may fail but must neither hang nor panic
+	sinkReported := false // a call of the current epoch has returned the injected sink failure
 	injected := func(err error) bool {
 		if err != nil && c.SinkFail > 0 && errors.Is(err, inst.ErrInjected) {
 			class("sink-failure/reported")
+			sinkReported = true
 			return true
 		}
 		return false
@@ -289,6 +291,9 @@ func (r *wRun) run(c c17WCase) {
 		r.curDesc = fmt.Sprintf("%s-in-%s-state/%s", op.Op, wsNames[state], conc)
 		before := len(sink.Buf)
 		where := fmt.Sprintf("op %d %s in state %s (options %s)", i, op, wsNames[state], opts)
+		reportedBefore, stateBefore := sinkReported, state
+		var opErr error
+		opCalled := false
 		switch op.Op {
 		case "apply":
 			err := w.Apply(op.Set.options()...)
@@ -317,6 +322,7 @@ func (r *wRun) run(c c17WCase) {
 		case "write":
 			data := opData(op.N, op.Seed)
 			n, err := writeScribbled(w, data)
+			opErr, opCalled = err, true
 			switch state {
 			case wsFresh, wsOpen:
 				if injected(err) {
@@ -344,6 +350,7 @@ func (r *wRun) run(c c17WCase) {
 		case "readfrom":
 			data := opData(op.N, op.Seed)
 			n, err := w.ReadFrom(bytes.NewReader(data))
+			opErr, opCalled = err, true
 			switch state {
 			case wsFresh:
 				if injected(err) {
@@ -384,6 +391,7 @@ func (r *wRun) run(c c17WCase) {
 			}
 		case "flush":
 			err := w.Flush()
+			opErr, opCalled = err, true
 			switch state {
 			case wsFresh, wsOpen:
 				if injected(err) {
@@ -420,6 +428,7 @@ func (r *wRun) run(c c17WCase) {
 			}
 		case "close":
 			err := w.Close()
+			opErr, opCalled = err, true
 			switch state {
 			case wsFresh, wsOpen:
 				if injected(err) {
@@ -471,6 +480,16 @@ func (r *wRun) run(c c17WCase) {
 			sink = newSink()
 			w.Reset(sink)
 			state, accepted, epoch, flushed = wsFresh, nil, nil, false
+			sinkReported = false
+		}
+		// a sequential Writer that has reported a sink failure cannot know what reached the sink: whatever it is handed
+		// afterwards cannot become part of one well-formed frame, so no later call of the epoch may claim success
+		if opCalled && reportedBefore && stateBefore == wsErrored && concOf(opts.Conc) == 1 {
+			class("sink-failure/later-call-in-the-same-epoch")
+			if opErr == nil {
+				r.fail = stat.Failf("C17/writer/call-succeeds-after-a-reported-sink-failure/"+op.Op, "%s: an earlier call of this epoch returned the sink's failure (sink calls that failed: %v); this call returned nil; the sink holds %d bytes", where, sink.FailedAt, len(sink.Buf))
+				return
+			}
 		}
 		if state == wsErrored {
 			class("state/errored")
